@@ -913,3 +913,42 @@ def r13(R):
     for v in vs[:1]:
         R.violation(v.node, v.message, g, v.path,
                     key='index without id rejected by the id comparison')
+
+
+# ----------------------------------------------------------------- C09.R14
+@rule('C09.R14', 'the saved index is taken for a time-travel open exactly '
+      'when the scan would have gone that far: the test that discards the '
+      'index and the test that ends the scan put a transaction whose id '
+      'EQUALS the bound on the same side (sibling agreement)',
+      props=['C15'], min_instances=2)
+def r14(R):
+    from ..flow import boundary_classes
+    cls = R.prog.cls(FS)
+    init = R.method(cls, '__init__')
+    scan = [f for f in R.prog.all_functions()
+            if f.name == 'read_index' and f.cls is None and
+            f.module is init.module]
+    R.require(scan, 'read_index not found next to FileStorage')
+    a = boundary_classes(init.node, 'stop')
+    b_ = boundary_classes(scan[0].node, 'stop')
+    R.require(a, 'FileStorage.__init__ no longer compares the saved index '
+              'with the stop bound')
+    R.require(b_, 'read_index no longer compares a transaction id with the '
+              'stop bound')
+    for k, c in a:
+        R.instance('FileStorage.__init__: `%s` (%s)' % (ast.unparse(c), k))
+    for k, c in b_:
+        R.instance('read_index: `%s` (%s)' % (ast.unparse(c), k))
+    ka, kb = {k for k, c in a}, {k for k, c in b_}
+    if ka != kb or len(ka) != 1:
+        c = a[0][1]
+        R.violation(
+            (init.module.relpath, init.qualname,
+             ' '.join(ast.unparse(c).split()), c.lineno),
+            'the open decides about the saved index with a test that treats '
+            'a transaction id equal to the stop bound as %s, the scan of '
+            'read_index treats it as %s: with an index saved exactly at the '
+            'bound the open answers differently with and without the index '
+            'file (last transaction, size, object states)' % (
+                '/'.join(sorted(ka)), '/'.join(sorted(kb))),
+            key='index test and scan disagree about id == stop')
